@@ -225,18 +225,15 @@ class FileInfo:
         # noinspection PyProtectedMember
         prefix = self.vpk._dir_prefix
 
-        if prefix is None:
-            self.start_data = data
-            self.arch_len = 0
-            return
-
-        if self.vpk.dir_limit is None:
-            # No limit, everything is kept in the directory.
-            self.start_data = data
-            arch_data = b''
+        if prefix is None or self.vpk.dir_limit is None:
+            # Everything is kept in the directory file. The preload length field is only 16 bits,
+            # anything more goes after the file tree.
+            limit = 0xFFFF
+            arch_index = None
         else:
-            self.start_data = data[:self.vpk.dir_limit]
-            arch_data = data[self.vpk.dir_limit:]
+            limit = min(self.vpk.dir_limit, 0xFFFF)
+        self.start_data = data[:limit]
+        arch_data = data[limit:]
 
         self.arch_len = len(arch_data)
 
